@@ -58,7 +58,7 @@ def cases(draw, tier):
     idk = draw(st.sampled_from(["tsv", "tsv", "simple"]))
     spec = draw(gen.table_specs(tier, values="wild", ids=idk, md=False,
                                 history=True, types=False, shape=shape,
-                                poke=True))
+                                poke=True, f32=True))
     md = draw(st.sampled_from(["none", "none", "taxonomy", "naive"]))
     big = draw(st.sampled_from([False] * 29 + [True]))
     if big:
@@ -74,6 +74,10 @@ def cases(draw, tier):
         spec["obs_md"] = [{"tax": draw(st.lists(TAX_ELEM, min_size=1,
                                                 max_size=4)),
                            "other": "zz"} for _ in range(n)]
+        for m_ in spec["obs_md"]:
+            # an unnamed level inside a lineage (k__A; ; c__C)
+            if len(m_["tax"]) >= 3 and draw(st.integers(0, 3)) == 0:
+                m_["tax"][1] = ""
     elif md == "naive":
         spec["obs_md"] = [{"tax": draw(NAIVE), "other": "zz"}
                           for _ in range(n)]
